@@ -5,6 +5,11 @@ pub mod c05;
 pub mod c07;
 pub mod c08;
 pub mod c09;
+pub mod c11;
+pub mod c12;
+pub mod c13;
+pub mod c16;
+pub mod c18;
 
 pub fn dispatch(ctx: &Ctx, rep: &mut Report) -> bool {
     match ctx.prop.as_str() {
@@ -13,6 +18,11 @@ pub fn dispatch(ctx: &Ctx, rep: &mut Report) -> bool {
         "C07" => c07::run(ctx, rep),
         "C08" => c08::run(ctx, rep),
         "C09" => c09::run(ctx, rep),
+        "C11" => c11::run(ctx, rep),
+        "C12" => c12::run(ctx, rep),
+        "C13" => c13::run(ctx, rep),
+        "C16" => c16::run(ctx, rep),
+        "C18" => c18::run(ctx, rep),
         _ => return false,
     }
     true
